@@ -23,7 +23,7 @@ CLAIMED = {
   "DESIGN.md §3 C18"),
  "C14": ("model_checking",
   "TLA+ specs Mvs.tla (definition of the MVS result + order-independent traversal), ParWork.tla (work-set protocol, exhaustive + liveness), Semver.tla (precedence); TLC-generated graphs/versions replayed into the real code, par.Work hook traces validated by TLC",
-  "Mvs.tla defines Want (max version over all nodes reachable from the target) and checks that every visiting order of the traversal reaches it without tripping Graph.Require's panics; every graph TLC generates (exhaustive 3 modules x 2 versions, seeded RandomSubset samples up to 8x4 with cycles and older main-module requirements) is fed to the real mvs.BuildList/Req with shuffled lists and random latency and compared with Want (sufficient, minimal, nothing unreachable, main first, no module visited twice, Req minimal). ParWork.tla model-checks the work-set protocol (at most once, return only when drained, no lost wake-up, termination under fairness) and the hook events of real BuildList runs (10 runners) are validated against it with the scalar state (len(todo), waiting) compared at every event. Semver.tla gives a precedence rank to 1099 structured versions; every pair is compared with semver.Compare and module.Versions.Max, plus validity/canonical form.",
+  "Mvs.tla defines Want (max version over all nodes reachable from the target) and checks that every visiting order of the traversal reaches it without tripping Graph.Require's panics; every graph TLC generates (exhaustive 3 modules x 2 versions, seeded RandomSubset samples up to 8x4 with cycles and older main-module requirements) is fed to the real mvs.BuildList/Req with shuffled lists and, with the main module's list as roots (several versions per path allowed), to the module loader's pruned graph reader modrequirements.Requirements.Graph, whose build list must be the pruned selection want1 of the spec; all with random latency and compared with Want (sufficient, minimal, nothing unreachable, main first, no module visited twice, Req minimal). ParWork.tla model-checks the work-set protocol (at most once, return only when drained, no lost wake-up, termination under fairness) and the hook events of real BuildList runs (10 runners) are validated against it with the scalar state (len(todo), waiting) compared at every event. Semver.tla gives a precedence rank to 1099 structured versions; every pair is compared with semver.Compare and module.Versions.Max, plus validity/canonical form.",
   "trusted: TLC, the Want definition, rendering of versions/graphs; canaries (early return, double pick, wrong waiting count) must be rejected each run",
   "DESIGN.md §3 C14"),
  "C19": ("model_checking",
@@ -98,7 +98,7 @@ CLAIMED = {
   "DESIGN.md §3 C07"),
  "C08": ("exploration",
   "TLA+ spec FmtLayout.tla (files = sequences of declaration kinds x layout record x comment slots; protocol parse -> format -> parse -> format) enumerated by TLC; every state rendered as text and run through parser, format.Source (and a sample through `cue fmt`), with a position-free syntax tree dump compared before and after",
-  "Model-driven exploration: FmtLayout.tla enumerates every sequence of <= 2 of 28 declaration kinds (fields, nested structs, field chains, lists, embeddings, let, attributes, for/if comprehensions, calls on one and several lines, optional/required fields, definitions, multi-line strings and bytes with and without interpolation, operator chains, pattern constraints, list comprehensions, aliases, ellipses, dynamic fields, unary operators, multi-line disjunctions) under a seeded sample of 6 (thorough 48) of 1944 layouts (member separator, spaces after colons and around operators, redundant parentheses, blank lines, trailing commas, indentation, closing bracket hugging the last element) with comments in up to two of eight slots (doc, end of line, after an opening brace, before a closing bracket, between members, after a colon, after a list element, after an operator). Each file must parse; format.Source must succeed; the output must parse to the same position-free tree (node kinds, literal text with multi-line string indentation normalised, operators, attributes, every comment group with its doc/line flags and attachment position); formatting again must be byte-identical; format.Simplify output must parse and be idempotent; a sample goes through the cue binary (`cue fmt --files`, then `cue fmt --check`). A second input family (FmtLayout.CorpusInit) takes the repository's own ~4000 parseable CUE sources (files and txtar sections) unchanged and with one whitespace / comment / comma / parenthesis mutation at a token boundary (8 k sampled mutants, thorough 200 k); unchanged sources are keyed by file name, mutants only by kind of failure (a known family of comment-placement defects of the new formatter). Five genuine defects found this way were repaired (fix: 5c6c9ae, 78b236a, 977d9cf, 3a178d9, 7fa13d5), the rest is recorded as known findings; a failing model state is shrunk to (kind, comment slots) to name its class.",
+  "Model-driven exploration: FmtLayout.tla enumerates every sequence of <= 2 of 28 declaration kinds (fields, nested structs, field chains, lists, embeddings, let, attributes, for/if comprehensions, calls on one and several lines, optional/required fields, definitions, multi-line strings and bytes with and without interpolation, operator chains, pattern constraints, list comprehensions, aliases, ellipses, dynamic fields, unary operators, multi-line disjunctions) under a seeded sample of 6 (thorough 48) of 1944 layouts (member separator, spaces after colons and around operators, redundant parentheses, blank lines, trailing commas, indentation, closing bracket hugging the last element) with comments in up to two of eight slots (doc, end of line, after an opening brace, before a closing bracket, between members, after a colon, after a list element, after an operator). Each file must parse; format.Source must succeed; the output must parse to the same position-free tree (node kinds, literal text with multi-line string indentation normalised, operators, attributes, every comment group with its doc/line flags and attachment position); formatting again must be byte-identical; format.Simplify output must parse and be idempotent; a sample goes through the cue binary (`cue fmt --files`, then `cue fmt --check`). A second input family (FmtLayout.CorpusInit) takes the repository's own ~4000 parseable CUE sources (files and txtar sections) unchanged and with one whitespace / comment / comma / parenthesis mutation at a token boundary (8 k sampled mutants, thorough 200 k); unchanged sources are keyed by file name, mutants only by kind of failure (a known family of comment-placement defects of the new formatter). Four genuine defects found this way were repaired (fix: 5c6c9ae, 78b236a, 977d9cf, 3a178d9), the rest is recorded as known findings; a failing model state is shrunk to (kind, comment slots) to name its class.",
   "trusted: TLC (enumeration), the renderer from states to text (files that do not parse are counted and fail the run above 20%), the tree dump; canary: a file with a moved comment must dump differently. Corpus mutants cannot flag a new member of the known defect family (their class is the kind of failure only); the Line flag of comments and the quoting of string labels are treated as layout; -s is only checked for parseability and idempotence.",
   "DESIGN.md §3 C08"),
  "C02": ("exploration",
